@@ -1,5 +1,6 @@
 import MirGen.SepCrit
 import MirProofs.Props.C19
+import MirProofs.Props.C14_GenVal
 /-!
   C19 (generated definitions) — the functions of `mir_eval/separation.py` that `harness/translate/sepcrit.py` regenerates
   from the source on every run (`lean/MirGen/SepCrit.lean`, `Mir.Gen.separation.*`) equal the hand-written model
@@ -135,7 +136,65 @@ theorem decomp_mtifilt_flen_zero (refs : List (List Rat)) (est : List Rat) (j : 
     (proj : List (List Rat) → List Rat → Nat → Py (List Rat)) (hj : j < refs.length) :
     Gen.separation._bss_decomp_mtifilt refs est j 0 proj = .error .valueError := by
   have : refs[j]? = some refs[j] := by simp [hj]
-  simp [Gen.separation._bss_decomp_mtifilt, PySep.row, this, PySep.zeros, ok_bind]
-  rfl
+  simp [Gen.separation._bss_decomp_mtifilt, PySep.row, this, PySep.zeros, ok_bind] <;> try rfl
+
+/-! ## 3. silence, validation -/
+
+/-- `_any_source_silent` as translated: the model's `anySourceSilent` on an array with at least two axes, the
+    `AxisError` (a `ValueError`) of `np.all(., axis=1)` otherwise. -/
+theorem any_source_silent_eq_model (a : Separation.Arr) :
+    Gen.separation._any_source_silent a
+      = if a.shape.length < 2 then .error .valueError else .ok (anySourceSilent a) := by
+  unfold Gen.separation._any_source_silent
+  by_cases h : a.shape.length < 2
+  · have : min a.shape.length 2 < 2 := by omega
+    simp [PySep.allAxis1, PySep.sumTrailingEqZero, h, this, error_bind]
+  · have : ¬ min a.shape.length 2 < 2 := by omega
+    simp only [PySep.allAxis1, PySep.sumTrailingEqZero, h, this, if_false, ok_bind]
+    simp [PySep.anyB, anySourceSilent, List.any_map, List.all_map, Function.comp_def]
+    rfl
+
+theorem prodL_eq_foldl (l : List Nat) (k : Nat) : l.foldl (· * ·) k = k * Mir.Arr.prodL l := by
+  induction l generalizing k with
+  | nil => simp [Mir.Arr.prodL]
+  | cons a t ih => simp [Mir.Arr.prodL, ih, Nat.mul_assoc]
+
+theorem srcOf_size (a : Separation.Arr) : (PySep.srcOf a).size = a.size := by
+  simp [PySep.srcOf, Mir.Validate.Src.size, Separation.Arr.size, prodL_eq_foldl]
+
+/-- the validator GENERATED from the source (`Mir.GenV.separation.validate`, part `validators`, C14) on what it looks at
+    = the separation model's `validate`, for all arrays. -/
+theorem validate_eq_model (r e : Separation.Arr) :
+    GenV.separation.validate (PySep.srcOf r) (PySep.srcOf e) = validate r e := by
+  rw [Mir.C14.GenVal.separation_validate_eq_model]
+  have hr := srcOf_size r
+  have he := srcOf_size e
+  obtain ⟨rs, rd⟩ := r
+  obtain ⟨es, ed⟩ := e
+  unfold Mir.Validate.separationValidate Mir.Validate.silentCheck validate
+  simp only [hr, he]
+  simp only [PySep.srcOf, Mir.Validate.Src.ndim, Mir.Validate.Src.shape0, Mir.Validate.anySourceSilent, Mir.Validate.check,
+    anySourceSilent, MAX_SOURCES, Mir.Validate.maxSources, bind, Except.bind, throw, throwThe, MonadExceptOf.throw, pure,
+    Except.pure]
+  by_cases h1 : rs = es
+  · subst h1
+    rcases rs with _ | ⟨n, t⟩
+    · simp [Separation.Arr.size]
+    · simp only [Separation.Arr.size]
+      have e1 : ∀ d : List (List (List Rat)), (List.map (fun src => src.all fun samp => decide (samp.sum = 0)) d).any id
+          = d.any fun src => src.all fun samp => decide (samp.sum = 0) := by
+        intro d; simp [List.any_map, Function.comp_def]
+      rw [e1, e1]
+      simp only [List.length_cons]
+      by_cases hA : 3 < t.length + 1
+      · simp [hA]
+      · by_cases hB : List.foldl (fun x1 x2 => x1 * x2) n t = 0
+        · by_cases h8 : 100 < n <;> simp [hA, hB, h8]
+        · by_cases hC : t.length + 1 < 2
+          · simp [hA, hB, hC]
+          · by_cases hD : (rd.any fun src => src.all fun samp => decide (samp.sum = 0)) = true <;>
+            by_cases hE : (ed.any fun src => src.all fun samp => decide (samp.sum = 0)) = true <;>
+            by_cases h8 : 100 < n <;> simp [hA, hB, hC, h8, hD, hE] <;> simp_all
+  · simp [h1]
 
 end Mir.C19.Gen
